@@ -2,6 +2,7 @@ package prog
 
 import (
 	"fmt"
+	"github.com/onflow/cadence/common"
 
 	"verif/harness/core"
 	"verif/harness/host"
@@ -86,6 +87,12 @@ func runC34(c *core.Ctx) {
 	steps := append([]string{fmt.Sprintf(`transaction { prepare(signer: auth(Contracts) &Account) { signer.contracts.add(name: "C0", code: "%x".decodeHex()) } }`, s.Contract)}, nil...)
 	for _, t := range s.Txs {
 		steps = append(steps, t.Source)
+	}
+	if s.Twin {
+		// the same contract under the same name on account 0x2 (not a compared step)
+		for ei, eng := range host.AllEngines {
+			hs[ei].RunTx(eng, steps[0], nil, []common.Address{host.Addr(2)}, nil)
+		}
 	}
 	for step, src := range steps {
 		var obs [3]Obs
